@@ -21,7 +21,7 @@ ASSUMPTIONS = ["sessions of one station do not overlap (generator guarantees it)
                "tie order inside one (timestamp, precedence) class is not constrained"]
 PREC = {"Unplug": 0, "Plugin": 1, "Recompute": 2, "Event": 3}
 
-PROFILE = world.profile(zero_demand=0.05, second_life=0.15, stations=(1, 8), faults={"crash": 0.5}, resume_modes=["rerun", "rerun", "json_str", "json_file", "deepcopy_branch"], custom_events=0.2,
+PROFILE = world.profile(zero_demand=0.05, second_life=0.15, stations=(1, 8), faults={"crash": 0.5}, resume_modes=["rerun", "rerun", "json_str", "json_file", "deepcopy_branch", "json_legacy_unplug"], custom_events=0.2,
                         party={"scripted": 4, "uncontrolled": 2, "greedy": 2, "rr": 1})
 
 
